@@ -1393,7 +1393,8 @@ def gen_cmd(rng, env: Env, ref: PyRef, weights: dict, nextcid) -> dict:
     if k in ('close', 'noop', 'check'):
         return {'k': k}
     if k == 'status':
-        return {'k': 'status', 'box': env.names.index(sel) if sel and rng.random() < 0.45 else box(0.9)}
+        return {'k': 'status', 'box': env.names.index(sel) if sel in env.names and rng.random() < 0.45
+                else box(0.9)}
     if k == 'search':
         return {'k': 'search', 'uid': uid,
                 'keys': [gen_key(rng, n, uids) for _ in range(rng.choice([1, 1, 2, 3]))]}
@@ -1423,7 +1424,8 @@ def gen_wop(rng, env: Env, ref: PyRef, nextcid) -> dict:
     """a change made by ANOTHER connection: flags, a delivery, or an expunge"""
     writable = [i for i, n in enumerate(env.names) if n in ref.boxes and not ref.boxes[n]['ro']]
     box = rng.choice(writable)
-    if ref.sel and not ref.boxes[ref.sel[0]]['ro'] and rng.random() < 0.75:
+    if ref.sel and ref.sel[0] in ref.boxes and ref.sel[0] in env.names \
+            and not ref.boxes[ref.sel[0]]['ro'] and rng.random() < 0.75:
         box = env.names.index(ref.sel[0])
     uids = ref._uids(env.names[box])
     r = rng.random()
